@@ -1,14 +1,14 @@
 package seq
 
 import (
-	"strings"
-	"math"
 	"bytes"
 	"encoding/json"
 	"fmt"
+	"math"
 	"os"
 	"path/filepath"
 	"sort"
+	"strings"
 
 	"github.com/maypok86/otter/v2"
 
@@ -24,6 +24,10 @@ type PersistCase struct {
 	Ops       []Op   `json:"ops"`
 	Offset    int64  `json:"offset"`     // clock offset between save and load
 	TargetMax uint64 `json:"target_max"` // maximum of the target cache (bounded configurations)
+	// ViaFile: 0 the snapshot goes through a buffer (SaveCacheTo / LoadCacheFrom); 1 through a new file in a
+	// directory that does not exist yet (SaveCacheToFile / LoadCacheFromFile); 2 through a file that already
+	// holds an older, much larger snapshot of another cache
+	ViaFile int `json:"via_file,omitempty"`
 }
 
 type persistOutcome struct {
@@ -75,7 +79,39 @@ func runPersist(pc *PersistCase, generate bool, nops int, rng *core.Rng) (out pe
 		}
 	}
 	var buf bytes.Buffer
-	if err := otter.SaveCacheTo(src.Env.Cache, &buf); err != nil {
+	if generate {
+		switch core.Mix(pc.Seed^uint64(pc.Index)*0x9e3779b97f4a7c15) % 8 {
+		case 5:
+			pc.ViaFile = 1
+		case 6, 7:
+			pc.ViaFile = 2
+		}
+	}
+	filePath := ""
+	if pc.ViaFile != 0 {
+		dir, derr := os.MkdirTemp("", "otterverif-c19-")
+		if derr != nil {
+			out.mismatch = "inconclusive: " + derr.Error()
+			return
+		}
+		defer os.RemoveAll(dir)
+		filePath = filepath.Join(dir, "snapshots", "cache.gob")
+		if pc.ViaFile == 2 {
+			decoy := otter.Must(&otter.Options[int, int]{})
+			for i := 0; i < 400; i++ {
+				decoy.Set(1_000_000+i, -i)
+			}
+			if err := otter.SaveCacheToFile(decoy, filePath); err != nil {
+				out.mismatch = "SaveCacheToFile (older snapshot): " + err.Error()
+				return
+			}
+			decoy.StopAllGoroutines()
+		}
+		if err := otter.SaveCacheToFile(src.Env.Cache, filePath); err != nil {
+			out.mismatch = "SaveCacheToFile: " + err.Error()
+			return
+		}
+	} else if err := otter.SaveCacheTo(src.Env.Cache, &buf); err != nil {
 		out.mismatch = "SaveCacheTo: " + err.Error()
 		return
 	}
@@ -150,7 +186,12 @@ func runPersist(pc *PersistCase, generate bool, nops int, rng *core.Rng) (out pe
 		loadTime = sat(saveTime, pc.Offset)
 		tgt.Clock.now.Store(loadTime)
 	}
-	if err := otter.LoadCacheFrom(tgt.Cache, &buf); err != nil {
+	if filePath != "" {
+		if err := otter.LoadCacheFromFile(tgt.Cache, filePath); err != nil {
+			out.mismatch = fmt.Sprintf("LoadCacheFromFile (via_file=%d): %v", pc.ViaFile, err)
+			return
+		}
+	} else if err := otter.LoadCacheFrom(tgt.Cache, &buf); err != nil {
 		out.mismatch = "LoadCacheFrom: " + err.Error()
 		return
 	}
@@ -266,6 +307,12 @@ func runPersistFor(col *core.Collector, prop, tier string, seed uint64, shard, n
 		if out.srcFailed {
 			col.Count("source_sequence_stopped_on_mismatch", 1)
 			continue
+		}
+		if pc.ViaFile != 0 {
+			col.Count("round_trips_through_a_file", 1)
+		}
+		if pc.ViaFile == 2 {
+			col.Count("round_trips_over_an_older_larger_snapshot", 1)
 		}
 		col.Count("entries_saved", int64(out.saved))
 		col.Count("entries_expired_at_load", int64(out.expired))
